@@ -310,7 +310,11 @@ func init() {
 			reqlen = 4
 		}
 		for _, c := range cfgs {
-			j := mk("c10.bulk."+c.name, rootPkg, "ZZ_C10_Bulk", with(cfgParams(c.exp, c.ref, c.bound, c.max, 1, 0), "reqlen", reqlen),
+			rl := reqlen
+			if tier == "quick" && c.exp != 0 {
+				rl = 2 // quick: request lists of 2 on the expiring configuration, 3 on the plain one
+			}
+			j := mk("c10.bulk."+c.name, rootPkg, "ZZ_C10_Bulk", with(cfgParams(c.exp, c.ref, c.bound, c.max, 1, 0), "reqlen", rl),
 				func(b *Bounds) { b.Unwind = 12; b.MaxPaths = 600000; b.MaxWallS = 1500; b.MapOrders = 2 })
 			js = append(js, j)
 			j = mk("c10.single."+c.name, rootPkg, "ZZ_C10_Single", cfgParams(c.exp, c.ref, c.bound, c.max, 1, 0), func(b *Bounds) { b.Unwind = 12 })
